@@ -18,6 +18,7 @@ HEADER = ("From Coq Require Import List String ZArith.\nImport ListNotations.\n"
 
 SNAP = """function snap($v) { if (is_array($v)) { $r = []; foreach ($v as $k => $x) { $r[] = [$k, snap($x)]; } return $r; } return $v; }
 function s($l, $v) { echo $l, "\\t", json_encode(snap($v)), "\\n"; }
+function setit99(&$x) { $x = 99; }
 """
 
 # ---------------------------------------------------------------------------- literals / shapes
@@ -96,8 +97,8 @@ class Shape:
 
 def shapes(rng, quick):
     def ints(n):
-        base = rng.sample(range(1, 30), n)
-        return base
+        # descending: an in-place sort of the list (top level or nested) always changes it
+        return sorted(rng.sample(range(1, 30), n), reverse=True)
     res = [
         Shape("list3", ("list", ints(3))),
         Shape("list1", ("list", ints(1))),
@@ -187,6 +188,25 @@ def mutations(shape, base_is_var, prefix_empty):
         if strkeys:
             res.append(("unset-str", (strkeys[0],)) + unset((strkeys[0],)))
         allint = all(isinstance(x, int) for _, x in ents) and not strkeys
+        # writes that go THROUGH a cell (a by-reference parameter bound to the element, $r = &elem) instead of
+        # replacing it: CloneArrayValue shares the cells, so these are the writes a shallow copy does not protect
+        # by itself (ArrayValue.OwnSlot does).  Position = key for the unnamed prefix of a list.
+        dense = [k for k, x in ents if isinstance(k, int) and k < len(shape.lit[1]) and not shape.extra]
+        if dense:
+            k0 = dense[0]
+            res.append(("refparam-store-int", (k0,), "STMT:SRefParamStore (%%(base)s) %%(path)s 99",
+                        lambda lv, k=k0: "setit99(%s%s);" % (lv, php_key(k))))
+            res.append(("refbind-store-int", (dense[-1],), "STMT:SRefBindStore (%%(base)s) %%(path)s 99",
+                        lambda lv, k=dense[-1]: "$r = &%s%s; $r = 99;" % (lv, php_key(k))))
+        if strkeys:
+            res.append(("refparam-store-str", (strkeys[0],), "STMT:SRefParamStore (%%(base)s) %%(path)s 99",
+                        lambda lv, k=strkeys[0]: "setit99(%s%s);" % (lv, php_key(k))))
+        allintvals = all(isinstance(x, int) for _, x in ents)
+        if base_is_var and prefix_empty and allintvals and n >= 2:
+            res.append(("usort", (), "STMT:SUsort %%(var)s",
+                        lambda lv: "usort(%s, function($p, $q) { return $p <=> $q; });" % lv))
+            res.append(("array-walk", (), "STMT:SWalkStore %%(var)s 97",
+                        lambda lv: "array_walk(%s, function(&$v, $k) { $v = 97; return 97; }, null);" % lv))   # this array_walk stores the callback's RESULT; the by-reference form is there for the day it is repaired
         if base_is_var and prefix_empty and allint and n >= 2:
             res.append(("sort", (), "ASort", lambda lv: "sort(%s);" % lv))
         if base_is_var and prefix_empty and not strkeys:
@@ -205,17 +225,32 @@ def mutations(shape, base_is_var, prefix_empty):
     # nested levels (the literal part only)
     for path, sub in inner_paths(shape.lit):
         d = len(path) + 1
+        sel = lambda p: "".join(php_key(q) for q in p)
         if sub[0] == "list":
             if sub[1] and isinstance(sub[1][0], int):
                 res.append(("nested%d-store-int" % d, path + (0,)) + store(path + (0,)))
                 if len(sub[1]) >= 2:
                     res.append(("nested%d-unset-int" % d, path + (0,)) + unset(path + (0,)))
+                res.append(("nested%d-refparam-store-int" % d, path + (0,), "STMT:SRefParamStore (%%(base)s) %%(path)s 99",
+                            lambda lv, p=path: "setit99(%s%s[0]);" % (lv, sel(p))))
+                v0 = sub[1][0]
+                res.append(("nested%d-add-assign-int" % d, path + (0,), "AStore %s" % coq_z(v0 + 5),
+                            lambda lv, p=path: "%s%s[0] += 5;" % (lv, sel(p))))
+                res.append(("nested%d-concat-int" % d, path + (0,), "AStore %s" % coq_z(10 * v0 + 7),
+                            lambda lv, p=path: "%s%s[0] .= '7';" % (lv, sel(p))))
+            if all(isinstance(x, int) for x in sub[1]) and len(sub[1]) >= 2:
+                res.append(("nested%d-sort" % d, path, "ASort", lambda lv, p=path: "sort(%s%s);" % (lv, sel(p))))
+            if all(isinstance(x, int) for x in sub[1]):
+                res.append(("nested%d-push" % d, path, "APush 96", lambda lv, p=path: "array_push(%s%s, 96);" % (lv, sel(p))))
+                if sub[1]:
+                    res.append(("nested%d-pop" % d, path, "APop", lambda lv, p=path: "array_pop(%s%s);" % (lv, sel(p))))
             res.append(("nested%d-append" % d, path) + append(path))
             res.append(("nested%d-store-str-new" % d, path + ("zz",)) + store(path + ("zz",)))
         else:
             ks = [k for k, x in sub[1] if isinstance(x, int)]
             if ks:
                 res.append(("nested%d-store-str" % d, path + (ks[0],)) + store(path + (ks[0],)))
+                res.append(("nested%d-unset-str" % d, path + (ks[-1],)) + unset(path + (ks[-1],)))
             res.append(("nested%d-store-str-new" % d, path + ("zz",)) + store(path + ("zz",)))
     return res
 
@@ -224,8 +259,9 @@ def mutations(shape, base_is_var, prefix_empty):
 class Side:
     """one of the two names: php expression, Coq oexpr, mutation base (Coq), path prefix, is-var"""
 
-    def __init__(self, php, oexpr, base, prefix=(), is_var=True):
+    def __init__(self, php, oexpr, base, prefix=(), is_var=True, var=None):
         self.php, self.oexpr, self.base, self.prefix, self.is_var = php, oexpr, base, tuple(prefix), is_var
+        self.var = var if var is not None else php[1:]      # the model's variable name (whole-array built-ins)
 
 
 def var_side(x):
@@ -303,6 +339,63 @@ def routes(shape):
                 shape.model_setup("a") + ["SLit \"w\" (LList [])", "SElemAppend \"w\" \"a\"",
                                           "SElemRead \"b\" \"w\" (KI 0)"],
                 elem_side("w", 0), var_side("b"), False, ("copy", "orig"), None))
+    # ---- audit follow-up: the other binding forms of a by-value parameter, static properties, array_push
+    # variadic parameter: $xs = [copy of $a]; the callee writes through $xs[0]
+    res.append(("param-variadic", "", shape.php_setup("$a"), shape.model_setup("a") + ["SListOf \"xs\" [\"a\"]"],
+                var_side("a"), elem_side("xs", 0), False, ("copy",), "variadic"))
+    # named argument, and a parameter after one that has a default
+    res.append(("param-named", "", shape.php_setup("$a"), shape.model_setup("a") + ["SCopy \"p\" \"a\""],
+                var_side("a"), var_side("p"), False, ("copy",), "param-named"))
+    res.append(("param-after-default", "", shape.php_setup("$a"), shape.model_setup("a") + ["SCopy \"p\" \"a\""],
+                var_side("a"), var_side("p"), False, ("copy",), "param-default"))
+    # promoted constructor parameter: the object keeps a copy
+    res.append(("promoted-ctor", "class CP { function __construct(public $p) {} }\n", shape.php_setup("$a") + " $o = new CP($a);",
+                shape.model_setup("a") + ["SNewObj \"o\" \"p\" (LInt 0)", "SPropStore \"o\" \"p\" \"a\""],
+                var_side("a"), prop_side("o", "p"), False, ("copy", "orig"), None))
+    # a call result as the argument of another call; a call result stored into an element
+    res.append(("return-of-return", "function viaReturn($x) { return $x; }\n", shape.php_setup("$a") + " $b = viaReturn(viaReturn($a));",
+                shape.model_setup("a") + ["SCopy \"x\" \"a\"", "SCopy \"y\" \"x\"", "SCopy \"b\" \"y\""],
+                var_side("a"), var_side("b"), False, ("copy", "orig"), None))
+    res.append(("elem-store-call", "function viaReturn($x) { return $x; }\n", shape.php_setup("$a") + " $w = []; $w['x'] = viaReturn($a);",
+                shape.model_setup("a") + ["SCopy \"x\" \"a\"", "SLit \"w\" (LList [])", "SElemStore \"w\" (KS \"x\") \"x\""],
+                var_side("a"), elem_side("w", "x"), False, ("copy", "orig"), None))
+    # array_push($w, $a)
+    res.append(("in-array-push", "", shape.php_setup("$a") + " $w = []; array_push($w, $a);",
+                shape.model_setup("a") + ["SLit \"w\" (LList [])", "SElemAppend \"w\" \"a\""],
+                var_side("a"), elem_side("w", 0), False, ("copy", "orig"), None))
+    # static properties (a static property is a cell like a variable: the model uses the variable "S::p")
+    static_side = Side("S1::$p", "OVar %s" % cs("S::p"), "BVar %s" % cs("S::p"), var="S::p")
+    res.append(("static-prop-store", "class S1 { public static $p = 0; }\n", shape.php_setup("$a") + " S1::$p = $a;",
+                shape.model_setup("a") + ["SCopy \"S::p\" \"a\""],
+                var_side("a"), static_side, False, ("copy", "orig"), None))
+    res.append(("self-static-store", "class S1 { public static $p = 0; static function put($v) { self::$p = $v; } static function putLate($v) { static::$p = $v; } }\n",
+                shape.php_setup("$a") + " S1::put($a);",
+                shape.model_setup("a") + ["SCopy \"v\" \"a\"", "SCopy \"S::p\" \"v\""],
+                var_side("a"), static_side, False, ("copy", "orig"), None))
+    res.append(("late-static-store", "class S1 { public static $p = 0; static function put($v) { self::$p = $v; } static function putLate($v) { static::$p = $v; } }\n",
+                shape.php_setup("$a") + " S1::putLate($a);",
+                shape.model_setup("a") + ["SCopy \"v\" \"a\"", "SCopy \"S::p\" \"v\""],
+                var_side("a"), static_side, False, ("copy", "orig"), None))
+    if shape.literal_only:
+        res.append(("static-prop-read", "class S1 { public static $p = %s; }\n" % lit, "$b = S1::$p;",
+                    ["SLit \"S::p\" (%s)" % coq_lit(shape.lit), "SCopy \"b\" \"S::p\""],
+                    static_side, var_side("b"), False, ("copy", "orig"), None))
+        # an object handle copied: both names denote the SAME object, writes show through (exempt like &)
+        res.append(("handle-copy", "class C1 { public $p = %s; }\n" % lit, "$o = new C1(); $h = $o;",
+                    ["SNewObj \"o\" \"p\" (%s)" % coq_lit(shape.lit), "SCopy \"h\" \"o\""],
+                    prop_side("o", "p"), prop_side("h", "p"), True, ("copy",), None))
+        # clone of an object with several properties: each array property of the clone is independent
+        res.append(("clone-multi", "class C4 { public $n = 5; public $p = %s; public $q = 0; }\n" % lit,
+                    "$o = new C4(); $o->q = [7, 8]; $c = clone $o;",
+                    ["SNewObj \"o\" \"n\" (LInt 5)", "SLit \"t1\" (%s)" % coq_lit(shape.lit), "SPropStore \"o\" \"p\" \"t1\"",
+                     "SLit \"t2\" (LList [LInt 7; LInt 8])", "SPropStore \"o\" \"q\" \"t2\"", "SCloneObj \"c\" \"o\""],
+                    prop_side("o", "p"), prop_side("c", "p"), False, ("copy", "orig"), None))
+    # a reference into the array taken BEFORE the copy: PHP keeps the slot shared by both arrays; the model
+    # (cref) and the code (RefSlotCount) must agree on what each name shows - no independence claimed
+    if shape.lit[0] == "list" and shape.lit[1] and not shape.extra:
+        res.append(("ref-slot-then-copy", "", shape.php_setup("$a") + " $x = &$a[0]; $b = $a;",
+                    shape.model_setup("a") + ["SRefSlot \"x\" \"a\" 0", "SCopy \"b\" \"a\""],
+                    var_side("a"), var_side("b"), True, ("copy", "orig"), None))
     # explicit reference: the write is meant to show through
     res.append(("reference", "", shape.php_setup("$a") + " $b = &$a;", shape.model_setup("a") + ["SRefVar \"b\" \"a\""],
                 var_side("a"), var_side("b"), True, ("copy",), None))
@@ -315,12 +408,18 @@ def build_case(shape, route, mut, side):
     target = B if side == "copy" else A
     lv = target.php if not target.prefix else target.php  # php expr already includes the element key
     full_path = list(target.prefix) + list(path)
-    mstmt = "SMut (%s) %s (%s)" % (target.base, coq_list(coq_key(k) for k in full_path), act)
+    if act.startswith("STMT:"):
+        mstmt = act[5:].replace("%%", "%") % {"base": target.base, "path": coq_list(coq_key(k) for k in full_path),
+                                             "var": cs(target.var)}
+    else:
+        mstmt = "SMut (%s) %s (%s)" % (target.base, coq_list(coq_key(k) for k in full_path), act)
     mut_php = php_stmt(lv)
-    if wrap == "param":
+    if wrap in ("param", "param-named", "param-default", "variadic"):
+        sig, call = {"param": ("$p", "viaParam($a)"), "param-named": ("$p", "viaParam(p: $a)"),
+                     "param-default": ("$q = 0, $p = []", "viaParam(1, $a)"), "variadic": ("...$xs", "viaParam($a)")}[wrap]
         src = ("<?php\n" + SNAP + decls +
-               "function viaParam($p) { s(\"b0\", $p); %s s(\"b1\", $p); }\n" % mut_php.replace(B.php, "$p") +
-               pre_php + "\ns(\"a0\", %s); viaParam($a); s(\"a1\", %s);\n" % (A.php, A.php))
+               "function viaParam(%s) { s(\"b0\", %s); %s s(\"b1\", %s); }\n" % (sig, B.php, mut_php, B.php) +
+               pre_php + "\ns(\"a0\", %s); %s; s(\"a1\", %s);\n" % (A.php, call, A.php))
     else:
         src = ("<?php\n" + SNAP + decls + pre_php +
                "\ns(\"a0\", %s); s(\"b0\", %s);\n%s\ns(\"a1\", %s); s(\"b1\", %s);\n" % (A.php, B.php, mut_php, A.php, B.php))
@@ -332,16 +431,23 @@ def build_case(shape, route, mut, side):
 
 # ---------------------------------------------------------------------------- snapshots -> Coq trees
 def coq_tree(j, raw=False):
-    """raw=False: canonical integer strings used as keys are normalised to int keys (the model's
-    abstraction of ZVal.Name); raw=True: keys exactly as the foreach yielded them"""
+    """raw=False (model vs implementation): canonical integer strings used as keys are normalised to int
+    keys (the model's abstraction of ZVal.Name) and a digit-string VALUE counts as that int (`.=` on an int
+    element yields the digit string; the model stores the int).  raw=True (implementation vs implementation,
+    the other name before and after): keys and values exactly as printed - 5 and "5" differ.
+    Strings that are not canonical ints, floats and booleans are kept as TStr (never produced by the model)."""
     if j is None:
         return "TNull"
     if isinstance(j, bool):
-        return "TInt %d" % (1 if j else 0)
+        return "TStr %s" % cs("bool:%s" % j)
     if isinstance(j, int):
         return "TInt %s" % coq_z(j)
-    if isinstance(j, str) and j.isdigit() and str(int(j)) == j:
-        return "TInt %s" % coq_z(int(j))       # `.=` on an int element yields the digit string
+    if isinstance(j, float):
+        return "TStr %s" % cs("float:%r" % j)
+    if isinstance(j, str):
+        if not raw and j.isdigit() and str(int(j)) == j:
+            return "TInt %s" % coq_z(int(j))
+        return "TStr %s" % cs(j)
     if isinstance(j, list):
         items = []
         for pair in j:
@@ -377,14 +483,18 @@ def coq_case(c, snaps):
         coq_tree(snaps["a1" if c["other_is_a"] else "b1"], raw=True))
 
 
-def finding_key(c):
-    """depth x mutation class x route.  Nested shapes: `nested:mutation=<class>:route=<route>` (a
-    KNOWN_FINDINGS entry `nested:mutation=<class>` covers every route: all routes copy with the same
-    CloneArrayValue); depth 1: `depth1:route=<route>:mutation=<mutation>` (never listed)"""
+def finding_key(c, clause):
+    """clause x depth of the write x mutation class x route x side.
+    Nested writes: `nested:<clause>:d<depth>:<class>:route=<route>:side=<side>`; a KNOWN_FINDINGS entry
+    `nested:value:d2:append` covers every route and both sides of that (clause, depth, class) - all routes copy
+    with the same shallow CloneArrayValue - and nothing else: the key-type clause, another depth or another
+    mutation class is a new finding.  Depth 1: `depth1:<clause>:route=<route>:mutation=<mutation>:side=<side>`
+    (never listed)."""
     m = c["mutation"]
     if m.startswith("nested"):
-        return "nested:mutation=%s:route=%s:side=%s" % (m.split("-", 1)[1], c["route"], c["side"])
-    return "depth1:route=%s:mutation=%s:side=%s" % (c["route"], m, c["side"])
+        d, lab = m.split("-", 1)
+        return "nested:%s:d%s:%s:route=%s:side=%s" % (clause, d[len("nested"):], lab, c["route"], c["side"])
+    return "depth1:%s:route=%s:mutation=%s:side=%s" % (clause, c["route"], m, c["side"])
 
 
 def run_impl(binary, cases):
@@ -474,12 +584,12 @@ def main(ck):
                           "clause": "model and implementation disagree on a snapshot" + ("; and the other name changed" if 2 in cls else "")})
         elif 3 in cls and 2 not in cls:
             leaks += 1
-            ck.violation(finding_key(c) + ":key-types", {"case": c, "impl_out": parse_snaps(o.get("out", "")),
+            ck.violation(finding_key(c, "key-types"), {"case": c, "impl_out": parse_snaps(o.get("out", "")),
                          "clause": "copy_then_mutate: the write through one name changed the KEY TYPES a foreach over the other name yields (int keys became numeric strings or back)"})
         elif 2 in cls:
             leaks += 1
-            ck.violation(finding_key(c), {"case": c, "impl_out": parse_snaps(o.get("out", "")),
-                                          "clause": "copy_then_mutate: the write through one name is observable through the other"})
+            ck.violation(finding_key(c, "value"), {"case": c, "impl_out": parse_snaps(o.get("out", "")),
+                                                   "clause": "copy_then_mutate: the write through one name is observable through the other"})
     ck.cov["distribution"] = dist
     ck.cov["cases"] = len(cases)
     ck.cov["cases_not_run"] = notrun
